@@ -164,7 +164,26 @@ pub fn gen_pkg(rng: &mut Rng, idx: usize) -> APkg {
         .into_iter()
         .filter(|r| !refs.contains(r) && plan[i].iter().any(|q| q.name == *r && matches!(q.kind, "class" | "enum")))
         .collect();
-      items.push(Item::Decl(Decl { name: p.name.clone(), exported: p.exported, is_default: p.is_default, kind, sig_refs: refs, body_refs }));
+      // type parameters: constraint only, default only, or both, referring to other declarations
+      let mut generics = String::new();
+      if matches!(p.kind, "class" | "interface" | "type" | "function") && !others.is_empty() && rng.chance(1, 3) {
+        let mut tp = String::from("<T");
+        let form = rng.below(3);
+        if form != 1 {
+          let c = others[rng.below(others.len())].clone();
+          tp.push_str(&format!(" extends {}", c));
+          refs.push(c);
+        }
+        if form != 0 {
+          let d = others[rng.below(others.len())].clone();
+          tp.push_str(&format!(" = {}", d));
+          refs.push(d);
+        }
+        tp.push('>');
+        generics = tp;
+      }
+      let body_refs: Vec<String> = body_refs.into_iter().filter(|r| !refs.contains(r)).collect();
+      items.push(Item::Decl(Decl { name: p.name.clone(), exported: p.exported, is_default: p.is_default, kind, sig_refs: refs, body_refs, generics }));
     }
     // re-exports
     for _ in 0..rng.below(3) {
